@@ -21,6 +21,9 @@ pub struct TruthCase {
     /// 0: use enc.opts.padding as is; 1..=6: padding = seek-table size + (mode - 4) bytes,
     /// i.e. too small by 3..1, exact (4), ample by 1..2
     pub pad_mode: u8,
+    /// 0 = the sink accepts every write in full; n > 0 = it accepts at most n bytes per call
+    #[serde(default)]
+    pub short_writes: u8,
 }
 
 #[derive(Debug, Clone, PartialEq, Eq)]
@@ -94,6 +97,9 @@ pub struct Truth {
     pub name: &'static str,
 }
 
+/// capacity of one SEEKTABLE block
+pub const MAX_SEEKPOINTS: usize = ((1 << 24) - 1) / 18;
+
 pub fn seek_table_size(frames: usize, bs: usize, rate: u32, seek: &Seek) -> usize {
     let nframes = frames.div_ceil(bs);
     let pts = match seek {
@@ -140,9 +146,17 @@ impl Engine for Truth {
         let total = if o.declare_total { Some(codec::declared_total(&pcm, c.enc.front)) } else { None };
         // run A stops before finalize: it tells where finalize begins in the operation log
         // (the encoder is deterministic, so run B issues the same operations up to that point)
-        let sw_a = SharedWriter::new(RecWriter::with_prefix(&prefix));
+        let sink = || {
+            let mut w = RecWriter::with_prefix(&prefix);
+            w.max_write = c.short_writes as usize;
+            w
+        };
+        if c.short_writes > 0 {
+            out.label("sink-makes-short-writes");
+        }
+        let sw_a = SharedWriter::new(sink());
         let ra = guarded(|| codec::encode_full(sw_a.clone(), &pcm, &o, c.enc.front, &c.enc.chunks, total, &[], 0, false));
-        let sw = SharedWriter::new(RecWriter::with_prefix(&prefix));
+        let sw = SharedWriter::new(sink());
         let r = guarded(|| codec::encode_full(sw.clone(), &pcm, &o, c.enc.front, &c.enc.chunks, total, &[], 0, true));
         let (mark_ops, mark_len) = match (ra, r) {
             (Err(p), _) | (_, Err(p)) => {
@@ -274,9 +288,12 @@ impl Engine for Truth {
                                 SeekPoint::Placeholder => None,
                             })
                             .collect();
-                        // the written table may be capped by the number of placeholders reserved up front
+                        // same defined points; only the format's capacity (2^24 / 18 points) may cut the written table short
                         let n = defined.len().min(regen.len());
-                        if defined[..n] != regen[..n] || (defined.len() != regen.len() && !out.labels.contains(&"seektable-placeholders-left") && defined.len() > regen.len()) {
+                        if regen.len() >= 16 {
+                            out.label("seektable>=16-points");
+                        }
+                        if defined[..n] != regen[..n] || (defined.len() != regen.len() && regen.len() <= MAX_SEEKPOINTS) {
                             out.fail("regenerated-seektable-differs", format!("written {:?} vs regenerated {:?}", &defined[..defined.len().min(4)], &regen[..regen.len().min(4)]));
                         }
                     }
@@ -313,8 +330,9 @@ pub fn truth_strategy() -> BoxedStrategy<TruthCase> {
         super::c01::chunks_strategy(),
         proptest::sample::select(&[8u32, 16, 40, 100, 44100, 0][..]),
         super::c01::front_strategy(),
+        prop_oneof![3 => Just(0u8), 1 => 1u8..=9, 1 => 10u8..=255],
     )
-        .prop_flat_map(|(mut o, seek, prefix_len, pad_mode, chunks, rate, front)| {
+        .prop_flat_map(|(mut o, seek, prefix_len, pad_mode, chunks, rate, front, short_writes)| {
             o.seek = seek;
             let frames = opts::frames_strategy(o.block_size, 8);
             pcm::recipe_strategy(pcm::channels_strategy(), frames).prop_map(move |mut recipe: Recipe| {
@@ -323,8 +341,46 @@ pub fn truth_strategy() -> BoxedStrategy<TruthCase> {
                     enc: EncCase { recipe, opts: o.clone(), front, chunks: chunks.clone() },
                     prefix_len,
                     pad_mode,
+                    short_writes,
                 }
             })
+        })
+        .boxed()
+}
+
+/// Long streams (66 000 .. 200 000 samples, cheap content) with larger blocks and a seconds-based
+/// seek table: remaining-sample counts beyond 16 bits, many seek points.
+pub fn long_truth_strategy() -> BoxedStrategy<TruthCase> {
+    use crate::pcm::{ChanRecipe, Kind};
+    (
+        proptest::sample::select(&[256u16, 1024, 1152, 4096, 4608, 16384][..]),
+        prop_oneof![3 => (1u8..4).prop_map(Seek::Seconds), 1 => (1u32..6).prop_map(Seek::Frames), 1 => Just(Seek::Default)],
+        proptest::sample::select(&[1000u32, 4000, 8000, 16000, 44100, 700][..]),
+        66_000u32..200_000,
+        any::<bool>(),
+        prop_oneof![2 => Just(0u8), 2 => 1u8..=6],
+        prop_oneof![3 => Just(0u8), 1 => 1u8..=9],
+        super::c01::front_strategy(),
+        any::<u64>(),
+        prop_oneof![Just(Kind::Const { which: 3 }), Just(Kind::Square { run: 7 }), (0u8..3).prop_map(|amp| Kind::Noise { amp })],
+    )
+        .prop_map(|(bs, seek, rate, frames, declare_total, pad_mode, short_writes, front, seed, kind)| {
+            let mut o = EncOpts::small(bs);
+            o.seek = seek;
+            o.declare_total = declare_total;
+            o.max_lpc = None;
+            o.default_padding = true;
+            TruthCase {
+                enc: EncCase {
+                    recipe: Recipe { bps: 8, rate, frames, seed, chans: vec![ChanRecipe { kind, wasted: 0, relation: 0 }], seg: 0, ms_mix: 0 },
+                    opts: o,
+                    front,
+                    chunks: vec![],
+                },
+                prefix_len: 0,
+                pad_mode,
+                short_writes,
+            }
         })
         .boxed()
 }
@@ -354,33 +410,44 @@ pub fn huge_case() -> TruthCase {
         },
         prefix_len: 0,
         pad_mode: 0,
+        short_writes: 0,
     }
 }
 
 pub const RULE: &str = "cases = C01's PCM x options space crossed with seek-table policy (off / every n frames / every n seconds / default), \
 total declared or discovered at finalize, padding absent / too small by 1-3 / exact / ample by 1-2 / arbitrary, stream starting after a \
-junk prefix, extra metadata blocks; plus one stream of 932 068 frames (more than a seek table can hold) with one point per frame and an \
+junk prefix, extra metadata blocks, a sink that accepts every write in full or only up to n bytes per call; long streams (66 000 - 200 000 samples, blocks up to 16384) with seconds-based tables; plus one stream of 932 068 frames (more than a seek table can hold) with one point per frame and an \
 undeclared total. Oracle (independent parser over a recording writer): STREAMINFO total/channels/rate/depth/block size/min-max frame \
 size/MD5 are true; every defined seek point names first sample, offset and length of a real frame, ascending, placeholders last; writes \
 issued during finalize stay inside the metadata region, the output length does not change, the junk prefix is intact; \
-generate_seektable(file, same interval) yields the same defined points. Non-trivial = >= 3 frames and a seek table with defined points. \
+generate_seektable(file, same interval) yields the same defined points, in the same number unless the format's capacity cuts the written table. Non-trivial = >= 3 frames and a seek table with defined points. \
 Distinct = digest of the case.";
 
 pub fn run(ctx: &Ctx) {
     ctx.set_rule(RULE);
     let t = ctx.tier;
     let eng = Truth { name: "header-truth" };
-    ctx.regress(&eng);
+    ctx.regress_named(&eng, &["header-truth-long"]);
     let n = match t {
         Tier::Quick => 200_000,
         Tier::Thorough => 5_000_000,
     };
     ctx.search(&eng, n, truth_strategy);
+    let long = Truth { name: "header-truth-long" };
+    let n = match t {
+        Tier::Quick => 3_000,
+        Tier::Thorough => 100_000,
+    };
+    ctx.search(&long, n, long_truth_strategy);
     let huge = Truth { name: "more-frames-than-seekpoints" };
     ctx.run_cases(&huge, &[huge_case()]);
     let _: Option<Pcm> = None;
 }
 
 pub fn engines() -> Vec<Box<dyn crate::engine::DynEngine>> {
-    vec![Box::new(Truth { name: "header-truth" }), Box::new(Truth { name: "more-frames-than-seekpoints" })]
+    vec![
+        Box::new(Truth { name: "header-truth" }),
+        Box::new(Truth { name: "header-truth-long" }),
+        Box::new(Truth { name: "more-frames-than-seekpoints" }),
+    ]
 }
